@@ -309,3 +309,78 @@ func (g *c14oOpen) AuthPlain(user, pass string) error {
 	}
 	return errors.New("invalid credentials")
 }
+
+// TestVerifC14Quoted (part "quoted"): user names that are e-mail addresses whose
+// local part is a quoted string. The accounts BFS takes the expected normalised
+// name from the normalisation function under test; here the names are chosen so
+// that every e-mail normalisation leaves them unchanged (lower-case ASCII), so
+// the reference needs no normalisation at all: "alice"@example.org and
+// alice@example.org are two account names, as they are two keys of the
+// credential table.
+func TestVerifC14Quoted(t *testing.T) {
+	r := vx.Start("C14", "quoted")
+	defer r.Finish()
+	r.Rule("real pass_table over an in-memory table holding every subset of the accounts {alice@example.org, \"alice\"@example.org, \"al.ice\"@example.org} (distinct passwords); every name x every password x {table level, SASL PLAIN, SASL LOGIN} x normalisation {auto, precis_casefold_email, precis_email, noop}; the names are fixed points of every e-mail normalisation, so the reference is the credential map itself: an attempt succeeds iff the account of exactly that name exists and has that password, and the identity reported is that name")
+	if r.Replaying() {
+		return
+	}
+	names := []string{"alice@example.org", `"alice"@example.org`, `"al.ice"@example.org`}
+	pws := []string{"pw-plain", "pw-quoted", "pw-dot", "wrong"}
+	idx := 0
+	for mask := 0; mask < 1<<len(names); mask++ {
+		idx++
+		if !r.Mine(idx) {
+			continue
+		}
+		var hist []c14Op
+		ref := map[string]string{}
+		for i, n := range names {
+			if mask&(1<<i) != 0 {
+				hist = append(hist, c14Op{"create-bcrypt", n, pws[i]})
+				ref[n] = pws[i]
+			}
+		}
+		a, _, err := c14Build(hist)
+		if err != nil {
+			r.HarnessError(err.Error())
+			return
+		}
+		for _, n := range names {
+			for _, p := range pws {
+				cur, exists := ref[n]
+				want := exists && cur == p
+				c := map[string]any{"accounts": ref, "user": n, "password": p}
+				r.Eval()
+				r.Nontrivial(vx.JSON(c))
+				if got := a.AuthPlain(n, p) == nil; got != want {
+					r.Violation("C14:quoted:table", fmt.Sprintf("AuthPlain(%q, %q) = %v, reference %v (accounts %v)", n, p, got, want, ref), c)
+					return
+				}
+				for _, nf := range []string{"auto", "precis_casefold_email", "precis_email", "noop"} {
+					s := SASLAuth{Log: log.Logger{Out: log.NopOutput{}}, EnableLogin: true, Plain: []module.PlainAuth{a}, AuthNormalize: authz.NormalizeFuncs[nf]}
+					var idP, idL string
+					gotP, _ := c14RunSASL(s.CreateSASL(sasl.Plain, nil, func(id string, d ContextData) error { idP = id; return nil }), []byte("\x00"+n+"\x00"+p))
+					gotL, _ := c14RunSASL(s.CreateSASL(sasl.Login, nil, func(id string, d ContextData) error { idL = id; return nil }), []byte(n), []byte(p))
+					c["normalisation"] = nf
+					switch {
+					case gotP != want || gotL != want:
+						kind := "wrong-credentials-accepted"
+						if want {
+							kind = "current-password-refused"
+						}
+						r.Violation("C14:quoted:"+kind, fmt.Sprintf("normalisation %s: PLAIN=%v LOGIN=%v for user %q password %q; reference %v (accounts %v)", nf, gotP, gotL, n, p, want, ref), c)
+						return
+					case want && (idP != n || idL != n):
+						r.Violation("C14:quoted:identity", fmt.Sprintf("normalisation %s: user %q authenticated as PLAIN %q / LOGIN %q", nf, n, idP, idL), c)
+						return
+					}
+					if want {
+						r.Outcome("accepted")
+					} else {
+						r.Outcome("refused")
+					}
+				}
+			}
+		}
+	}
+}
